@@ -11,6 +11,7 @@ import (
 	"hash/fnv"
 	"os"
 	"path/filepath"
+	"runtime"
 	"sort"
 	"strings"
 	"sync"
@@ -392,6 +393,19 @@ func RunAll(t *testing.T, props []AnyProp, parallel bool) {
 		if *flagSubject != "" && !strings.Contains(p.PropSubject(), *flagSubject) {
 			continue
 		}
+		// A change that breaks something every subject depends on makes every subject fail, each
+		// spending its shrink budget (and, for hangs, its detection latency): once three subjects
+		// of a shard have reported a violation the verdict is settled, the rest is skipped (and
+		// counted), so that the run ends as a VIOLATION instead of running into its time limit.
+		coll.mu.Lock()
+		failed := len(coll.failures)
+		coll.mu.Unlock()
+		// (the same when a reported hang has left hundreds of goroutines behind: every later
+		// census would have to wade through them)
+		if failed >= 3 || (failed >= 1 && runtime.NumGoroutine() > 400) {
+			skippedSubjects++
+			continue
+		}
 		t.Run(safeName(p.PropSubject()), func(t *testing.T) {
 			if parallel {
 				t.Parallel()
@@ -399,7 +413,12 @@ func RunAll(t *testing.T, props []AnyProp, parallel bool) {
 			p.run(t)
 		})
 	}
+	if skippedSubjects > 0 {
+		SetExtra("subjects_skipped_after_three_violations", skippedSubjects)
+	}
 }
+
+var skippedSubjects int
 
 // Replay executes the case saved in -case, or every regression case saved under
 // replays/regress for this property when -case is empty.
